@@ -19,12 +19,13 @@ THEOREMS = [
     "Qentem.Props.C06.token_natural",
     "Qentem.Props.C06.token_negative",
     "Qentem.Props.C06.token_zero",
+    "Qentem.Props.C06.token_real",
     "Qentem.Props.C06.token_escaped_string",
     "Qentem.Props.C06.token_string_body",
     "Qentem.Props.C06.objInsert_last_wins_first_position",
     "Qentem.Props.C06.objInsert_new_key_appended",
 ]
-OPEN = ["NumSpec for numerals with fraction/exponent: exact consumption is proved (C09 consumed_exact_real) but the value is C09's open real_within_one_ulp"]
+OPEN = ["NumSpec for numerals with fraction/exponent is proved relative to the standalone run (token_real: every RFC 8259 numeral, embedded anywhere in a document, is consumed exactly and gives the kind/bits of StringToNumber on the numeral alone); per numeral the standalone run is a closed computation, and the accuracy of its bits (nearest double) is C09/C11's statement, not C06's"]
 
 
 def run(ctx):
